@@ -223,6 +223,18 @@ Proof.
   - intros H; inversion H; subst. exact R1.
 Qed.
 
+Lemma take_snapshot_same P s fs s' r tr fs' : take_snapshot P s fs = Done s' r tr fs' -> same s' s.
+Proof.
+  unfold take_snapshot. destruct (fsm_index s) as [fi ft].
+  destruct (fi =? 0); [intros H; inversion H; subst; fr|].
+  destruct (fi <? v_committedIdx s); [intros H; inversion H; subst; fr|].
+  destruct (next_fail fs) as [fc fs1]. destruct fc; [intros H; inversion H; subst; fr|].
+  destruct (next_fail fs1) as [fcl fs2]. destruct fcl; [intros H; inversion H; subst; fr|].
+  match goal with |- context [run_compaction ?S ?F ?R] =>
+    pose proof (run_compaction_same S F R) as Hc; destruct (run_compaction S F R) as [[s2 trc] fs3] end.
+  intros H; inversion H; subst. eapply same_trans; [exact Hc|fr].
+Qed.
+
 (* ---------------------------------------------------------------- restart *)
 Lemma scan_configs_same P n : forall s from s', scan_configs P s from n = Some s' -> same s' s.
 Proof.
@@ -324,6 +336,8 @@ Proof.
     apply elect_self_post in Hd. simpl in He. congruence.
   - (* restart *) simpl. destruct (boot P s) as [r' out] eqn:EB. simpl. eapply boot_adv; exact EB.
   - (* timeout decision *) simpl. exact Ha.
+  - (* snapshot *) destruct (fsm_index s) as [fi ft]. apply finish_adv. intros s' r tr fs' Hd.
+    rewrite <- (app_nil_r C). eapply post_adv; [exact Ha|]. left. eapply take_snapshot_same; exact Hd.
 Qed.
 
 (* over whole histories: an input is an event, a crash cut and a store-failure pattern *)
